@@ -678,6 +678,27 @@ func (w *world) exec(line string) {
 		}
 		fmt.Fprintln(w.ann, "skipline")
 		fmt.Fprintf(w.out, "mdoc %s\n", strings.Join(parts, " "))
+	case "path":
+		// path <cfg> <standalone> <tname>: white-box snapshotPath (no file system access)
+		c := w.cfgs[atoi(tok[1])]
+		pth, rel := snapshotPath(c, unhx(tok[3]), tok[2] == "1")
+		fmt.Fprintln(w.ann, line)
+		fmt.Fprintf(w.out, "path %s %s\n", hx(pth), hx(rel))
+	case "cfgrel":
+		// cfgrel <n> <dir|-> <file|-> <ext|->: a Config whose Dir is taken literally (may be relative)
+		var opts []func(*Config)
+		if tok[2] != "-" {
+			opts = append(opts, Dir(unhx(tok[2])))
+		}
+		if tok[3] != "-" {
+			opts = append(opts, Filename(unhx(tok[3])))
+		}
+		if tok[4] != "-" {
+			opts = append(opts, Ext(unhx(tok[4])))
+		}
+		w.cfgs[atoi(tok[1])] = WithConfig(opts...)
+		fmt.Fprintln(w.ann, line)
+		fmt.Fprintln(w.out, "cfgrel ok")
 	case "pdiff":
 		// white-box: the report builder on its own
 		rep := prettyDiff(unhx(tok[1]), unhx(tok[2]), unhx(tok[3]), atoi(tok[4]))
